@@ -20,19 +20,29 @@ import (
 func genC27() *rapid.Generator[C27Scenario] {
 	return rapid.Custom(func(t *rapid.T) C27Scenario {
 		s := C27Scenario{Comp: pick(t, "comp", []string{"snappy", "none", "zstd"})}
+		s.Store = pick(t, "store", []string{"", "", "", "fs", "fs", "fsdata"})
+		s.QueryConc = pick(t, "queryconc", []int{0, 0, 1, 2})
 		n := rapid.IntRange(2, 9).Draw(t, "nops")
+		bulk := false
 		for i := 0; i < n; i++ {
-			switch unif(t, "op", 20) {
+			switch unif(t, "op", 22) {
+			case 20, 21:
+				if !bulk {
+					bulk = true
+					s.Ops = append(s.Ops, C27Op{Op: "bulk", Rows: pick(t, "bulkfiles", []int{8, 24, 40})})
+					continue
+				}
+				s.Ops = append(s.Ops, C27Op{Op: "query", Query: pick(t, "bq", []string{"field", "all", "token"}), End: pick(t, "bqend", []string{"close1", "cancel1", "closenow"})})
 			case 0, 1, 2, 3, 4:
 				s.Ops = append(s.Ops, C27Op{Op: "ingest", Rows: rapid.IntRange(1, 4).Draw(t, "rows")})
 			case 5, 6:
 				s.Ops = append(s.Ops, C27Op{Op: "ext", Rows: rapid.IntRange(1, 3).Draw(t, "rows"), NoFilter: rapid.Bool().Draw(t, "nofilter"), Absent: unif(t, "absent", 4)})
 			case 7, 8, 9, 10, 11:
-				s.Ops = append(s.Ops, C27Op{Op: "query", Query: pick(t, "q", []string{"token", "fieldtoken", "field", "all"})})
+				s.Ops = append(s.Ops, C27Op{Op: "query", Query: pick(t, "q", []string{"token", "fieldtoken", "field", "all"}), End: pick(t, "qend", []string{"", "", "", "close1", "cancel1", "closenow"})})
 			case 12, 13, 14:
 				s.Ops = append(s.Ops, C27Op{Op: "merge"})
 			case 15, 16:
-				s.Ops = append(s.Ops, C27Op{Op: "corrupt", File: unif(t, "file", 4)})
+				s.Ops = append(s.Ops, C27Op{Op: "corrupt", File: unif(t, "file", 4), Where: pick(t, "where", []string{"", "", "late", "late", "mid", "tail", "truncate"})})
 			case 17:
 				s.Ops = append(s.Ops, C27Op{Op: "stopwedged"})
 			default:
@@ -57,7 +67,7 @@ func genC27() *rapid.Generator[C27Scenario] {
 				switch s.Ops[f.Op].Op {
 				case "merge":
 					f.Kind = pick(t, "fkm", []string{"Tombstone", "Tombstone", "Tombstone", "Update", "CreateFile", "Write", "Close", "OpenFile", "Read", "RClose", "IterYield"})
-				case "ingest", "flush", "stopwedged":
+				case "ingest", "flush", "stopwedged", "bulk":
 					f.Kind = pick(t, "fki", []string{"CreateFile", "Write", "Close", "Update", "Tombstone"})
 				case "query":
 					f.Kind = pick(t, "fkq", []string{"IterYield", "OpenFile", "Read", "Seek", "RClose"})
@@ -194,7 +204,7 @@ func TestC27(t *testing.T) {
 			os.Remove(c27Bin)
 		}
 	}()
-	Ev.Rule = "case = scenario of 2-9 operations, 40% of them prefixed by two flushed ingests with a Merge inserted after them (ingest+flush, external-writer files without filter sections / with individual filters absent, bloom / match-all queries, Merge, bit-flip corruption of a stored file, a Stop with a 60 ms deadline against a pipeline wedged by an abandoned unbuffered done channel) with 0-3 one-shot store failures (CreateFile, Write, Close, Update, TombstoneFile, OpenFile, Read, Seek, reader Close, iterator), each either the N-th call of its kind in the run or the N-th call of its kind during one chosen operation (so that e.g. the tombstone after a committed merge is a likely target). Each scenario is executed by a plain child program (no test framework) whose stdout and stderr are pipes owned by the parent: both must be empty, byte for byte, with BloomSearchEngineConfig.Logger == nil. The same scenario is run a second time in the child with a counting slog.Logger. Non-trivial: the twin run logged >= 1 record at Warn level (the silent run passed through logging call sites that matter) or went through a failure path (an injected fault fired, an operation returned an error, an acknowledgement carried an error); distinct by scenario. Classes name the Warn messages and failure paths reached."
+	Ev.Rule = "case = scenario of 2-9 operations, 40% of them prefixed by two flushed ingests with a Merge inserted after them (ingest+flush, external-writer files without filter sections / with individual filters absent, bloom / match-all queries, Merge, damage to a stored file (a bit in the row data, in the metadata / file-level filters with the footer tail intact, in the middle, in the last byte, or truncation), a burst of 8-40 small flushed files, queries drained or ended early (Close after the first row, cancel after the first row, Close at once) under MaxQueryConcurrency 1 / 2 / 4, in-memory stores or FileSystemDataStore as DataStore (and MetaStore), a Stop with a 60 ms deadline against a pipeline wedged by an abandoned unbuffered done channel) with 0-3 one-shot store failures (CreateFile, Write, Close, Update, TombstoneFile, OpenFile, Read, Seek, reader Close, iterator), each either the N-th call of its kind in the run or the N-th call of its kind during one chosen operation (so that e.g. the tombstone after a committed merge is a likely target). Each scenario is executed by a plain child program (no test framework) whose stdout and stderr are pipes owned by the parent: both must be empty, byte for byte, with BloomSearchEngineConfig.Logger == nil. The same scenario is run a second time in the child with a counting slog.Logger. Non-trivial: the twin run logged >= 1 record at Warn level (the silent run passed through logging call sites that matter) or went through a failure path (an injected fault fired, an operation returned an error, an acknowledgement carried an error); distinct by scenario. Classes name the Warn messages and failure paths reached."
 	Ev.Assumptions = []string{"anything written by the library's dependencies to the process's stdout/stderr counts too"}
 	runChecks(t, "scenarios", 240, 6000, genC27(), runC27)
 }
